@@ -33,7 +33,7 @@ BUDGET_S = {'quick': 900, 'thorough': 3300}
 BAD = ': #$%^&*!~`"\'=?/{}[]()|<>;\\,.'
 # (class, [(command, starred, marker words...)])   level: chapter 0, section 1, subsection 2, subsubsection 3
 SKELETONS = {
-    'article3': ('article', [('-', 'm0'), ('section', 'm1', 'FNa'), ('subsection', 'm2', 'FNb'), ('subsection*', 'm3'), ('section', 'm4'), ('subsubsection', 'm5', 'FNc'), ('section*', 'm6')]),
+    'article3': ('article', [('-', 'm0'), ('section', 'm1', 'FNa'), ('subsection', 'm2', 'FNb'), ('subsection*', 'm3'), ('section', 'm4', 'FTd', 'FMe'), ('subsubsection', 'm5', 'FNc'), ('section*', 'm6', 'FTf', 'FTg')]),
     'book': ('book', [('-', 'm0'), ('chapter', 'm1'), ('section', 'm2'), ('subsection', 'm3', 'FNa'), ('chapter', 'm4'), ('section', 'm5'), ('chapter*', 'm6', 'FNb')]),
     'flat': ('article', [('-', 'm0'), ('-', 'm1')]),
     'sections': ('article', [('section', 'm1'), ('section', 'm2'), ('section', 'm3')]),
@@ -122,12 +122,16 @@ def h_split(e, skel, tmpl, ntitle=2):
             expect_units.append(['document', None, False, [], None])
         body = []
         for m in marks:
-            if m.startswith('FN'):
+            if m.startswith('FT'):
+                body.append('\\footnotetext{%s}' % _fnword(m))          # a footnote text without a mark of its own
+            elif m.startswith('FM'):
+                body.append('\\footnotemark w \\footnotetext{%s}' % _fnword(m))
+            elif m.startswith('FN'):
                 body.append('\\footnote{%s}' % _fnword(m))
             else:
                 body.append(m + ' ')
         parts += ['\\%s{' % cmd, title, '}'] + body
-        cur = [name, LEVELS[name], starred, [_fnword(m) if m.startswith('FN') else m for m in marks], title]
+        cur = [name, LEVELS[name], starred, [_fnword(m) if m[:2] in ('FN', 'FT', 'FM') else m for m in marks], title]
         expect_units.append(cur)
     parts.append('\\end{document}')
     try:
@@ -240,7 +244,7 @@ def h_stable(e, skel, tmpl):
             if u[0] == '-':
                 parts.append(' '.join(u[1:]) + ' ')
             else:
-                parts += ['\\%s{Title %d}' % (u[0], k)] + [m + ' ' for m in u[1:] if not m.startswith('FN')]
+                parts += ['\\%s{Title %d}' % (u[0], k)] + [m + ' ' for m in u[1:] if m[:2] not in ('FN', 'FT', 'FM')]
         parts.append('\\end{document}')
         doc, out = RC.parse(e, parts)
         split = e.int('split', -10, 6)
